@@ -86,4 +86,25 @@ theorem cli_default_wiring :
     Gen.Waiter.instanceDiscardFrom = ["InstancePoolConfig.DiscardOverflow"] ∧
     Gen.Waiter.discardFieldAssignments = 0 := by decide
 
+/-- docs/eng/best_practices/discard-overflow.md (regenerated `doc*` facts) promises what the source does: the only option it
+names is the config key of `InstancePoolConfig.DiscardOverflow`, the default it states is the one `readConfig` applies, every net
+code / tag / window length it mentions is `DiscardedShootCodeError` / `DiscardedShootTag` / `MaxOverdueDuration` (in seconds). -/
+theorem doc_agrees :
+    Gen.Waiter.docOptionKeys = [Gen.Waiter.poolConfigDiscardKey] ∧
+    Gen.Waiter.docDefault = Gen.Waiter.cliPoolDiscardOverflow none ∧
+    Gen.Waiter.docNetCodes ≠ [] ∧ (∀ c ∈ Gen.Waiter.docNetCodes, c = Gen.Waiter.DiscardedShootCodeError) ∧
+    Gen.Waiter.docTags ≠ [] ∧ (∀ t ∈ Gen.Waiter.docTags, t = Gen.Waiter.DiscardedShootTag) ∧
+    Gen.Waiter.docWindowSeconds ≠ [] ∧
+    (∀ n ∈ Gen.Waiter.docWindowSeconds, n * 1000000000 = Gen.Waiter.MaxOverdueDuration) := by decide
+
+/-- core/engine `buildNewInstanceSchedule` + `newInstance`: with `rps-per-instance` every instance's Waiter runs over its own
+schedule, otherwise all of them over ONE schedule created once (wrapped only by the finish callback, which passes `Next`/`Left`
+through); the instance's schedule is the one that function returned. -/
+theorem scheduleKind_eq (perInstance : Bool) : Gen.Waiter.scheduleKind perInstance = scheduleKind perInstance := by
+  cases perInstance <;> rfl
+
+theorem schedule_wiring :
+    (∀ w ∈ Gen.Waiter.sharedScheduleWrappers, w = "coreutil.NewCallbackOnFinishSchedule") ∧
+    Gen.Waiter.instanceScheduleFrom = "deps.newSchedule()" := by decide
+
 end Pandora.Bridge.Waiter
